@@ -286,6 +286,11 @@ class BundleReader:
                 yield decompressor.decompress(line)
             except EOFError:
                 return
+        if not decompressor.eof:
+            # The compressed stream stopped before its end-of-stream marker:
+            # report the truncation instead of handing a cut-off container
+            # to the reader (as bz2.decompress does for stream_input=False).
+            raise errors.BadBundle("bundle data is truncated")
 
     @staticmethod
     def decode_name(name):
